@@ -91,8 +91,9 @@ func parseArchInto(ret *Arch, arch string) error {
 			ret.CPU = flavor
 		}
 	case 2:
-		/* Right, this is something like kfreebsd-amd64, which is implicitly
-		 * gnu-kfreebsd-amd64 */
+		/* Right, this is something like kfreebsd-amd64, which leaves the ABI
+		 * open: any-kfreebsd-amd64 */
+		ret.ABI = "any"
 		ret.OS = flavors[0]
 		ret.CPU = flavors[1]
 	case 3:
